@@ -42,6 +42,14 @@ class EvalMixin(InterpBase):
             return self.global_lookup(fr.module, name)
         except KeyError:
             pass
+        if fr.module.startswith("pyx:") and self.index.has_module(fr.module):
+            m = self.index.module(fr.module)
+            if name in m.classes:
+                return ClassRef(f"{fr.module}:{name}", info=m.classes[name])
+            if name in m.functions:
+                return FuncRef(m.functions[name])
+        if fr.module.startswith("pyx:") and name == "np":
+            return ModuleV("numpy")     # the .pyx file's `import numpy as np` (outside the extracted class)
         if name in ("True", "False", "None"):
             return {"True": True, "False": False, "None": None}[name]
         if name in BUILTINS or name in SPEC_FUNCS:
@@ -201,6 +209,8 @@ class EvalMixin(InterpBase):
             return Opaque((base.name, name))
         if isinstance(base, Opaque) and isinstance(base.what, tuple) and base.what[0] == "os" and name == "path":
             return ModuleV("os.path")
+        if isinstance(base, NdV) and name == "dtype":
+            return Opaque(("dtype", base.dtype))
         if isinstance(base, (ListV, DictV, tuple, IterV, NdV, RegexV)) or is_strv(base):
             return BoundMethod(base, "builtin." + name)
         if isinstance(base, ExcV):
